@@ -302,9 +302,7 @@ func (env *Env) specCall(sf *SpecFunc, e *ECall) TV {
 	}
 	name := fc.emitSpecFunc(sf)
 	var tpkg *types.Package
-	if p, ok := fc.eng.Pkgs[sf.Pkg]; ok {
-		tpkg = p.Types
-	}
+	tpkg = fc.pkgTypes(sf.Pkg)
 	rT, rS := fc.resolveType(sf.Result, tpkg)
 	if len(e.Args) == 0 {
 		return TV{name, rS, rT}
@@ -335,9 +333,7 @@ func (fc *FnCtx) emitSpecFunc(sf *SpecFunc) string {
 	}
 	fc.specDone[sf.Name] = true
 	var tpkg *types.Package
-	if p, ok := fc.eng.Pkgs[sf.Pkg]; ok {
-		tpkg = p.Types
-	}
+	tpkg = fc.pkgTypes(sf.Pkg)
 	_, rS := fc.resolveType(sf.Result, tpkg)
 	env := &Env{fc: fc, tpkg: tpkg, names: map[string]TV{}, cur: fc.entry, specBody: true}
 	var ps, ss, ns []string
